@@ -44,6 +44,7 @@ fn main() {
         "c20" => c20::run(rest),
         "mc" => mc::run(rest),
         "extras" => extra::run(rest),
+        "typeck" => extra::run_typeck(rest),
         "enc" => mc::run_enc(rest),
         "cli" => mc::run_cli(rest),
         other => {
